@@ -7,6 +7,7 @@ def run(ctx):
     k, m = (2, 10) if not ctx.thorough else (3, 16)
     generic_run(ctx, LABELS, extra=run_endpoint_correspondence, plan=[("faults", lambda: F.fam_faults(ctx.rng, sizes(ctx, 150, 1200), exhaustive_k=k, exhaustive_m=m)),
                               ("starve", lambda: F.fam_starve(ctx.rng, sizes(ctx, 40, 300))),
-                              ("spectator", lambda: F.fam_spectator(ctx.rng, sizes(ctx, 60, 400)))])
+                              ("spectator", lambda: F.fam_spectator(ctx.rng, sizes(ctx, 60, 400))),
+                              ("handshake_outage", lambda: F.fam_handshake_outage(ctx.rng, sizes(ctx, 40, 300)))])
 def replay(ctx, path):
     return sim_replay(ctx, path, LABELS)
